@@ -46,6 +46,44 @@ pub fn generate(tier: &str, rng: &mut Rng) -> Vec<String> {
             out.push(DecCase { dir: dir.into(), enc: None, max: None, buf_size: 8192, evs: evs.iter().map(|e| e.to_string()).collect(), stream: stream.clone(), extra_polls: 4 }.pline());
         }
     }
+    // nesting bombs (seed C07e: prost's recursion limit switched off): a payload that is one long run of
+    // START_GROUP keys of an unknown field (0x7b = field 15, wire type 3), or of nested length-delimited
+    // fields, must be refused with one error - never by a stack overflow that kills the process (a process
+    // that dies is isolated by `check`'s crash bisect and reported as fail:process-dies)
+    for depth in [99usize, 100, 101, 5_000, 1_000_000] {
+        let mut payload = vec![0x7bu8; depth];
+        payload.truncate(depth);
+        let mut stream = frame(0, &[0x0a, 0x01, 0x61]);
+        stream.extend(frame(0, &payload));
+        stream.extend(frame(0, &[0x0a, 0x00]));
+        let evs = vec![format!("d{}", hexr(&stream))];
+        out.push(DecCase { dir: "req".into(), enc: None, max: Some(4 * 1024 * 1024), buf_size: 8192, evs, stream, extra_polls: 3 }.pline());
+    }
+    for depth in [50usize, 101, 400] {
+        // field 2 (`Any.value`, bytes) is not recursive in the test message, so nest an unknown
+        // length-delimited field 15 (0x7a) inside itself `depth` times: skipped, not recursed - valid;
+        // and nested START_GROUPs closed properly by END_GROUPs (0x7c)
+        let mut inner: Vec<u8> = vec![];
+        for _ in 0..depth {
+            let mut m = vec![0x7a];
+            let mut l = inner.len();
+            loop {
+                let b = (l & 0x7f) as u8;
+                l >>= 7;
+                if l == 0 { m.push(b); break; } else { m.push(b | 0x80); }
+            }
+            m.extend(inner);
+            inner = m;
+        }
+        let mut groups = vec![0x7bu8; depth];
+        groups.extend(vec![0x7cu8; depth]);
+        for payload in [inner, groups] {
+            let mut stream = frame(0, &payload);
+            stream.extend(frame(0, &[0x0a, 0x00]));
+            let evs = vec![format!("d{}", hexr(&stream))];
+            out.push(DecCase { dir: "resp200".into(), enc: None, max: None, buf_size: 16, evs, stream, extra_polls: 3 }.pline());
+        }
+    }
     for _ in 0..n / 2 {
         out.push(gen_pdec_hostile(rng).pline());
     }
